@@ -18,9 +18,10 @@ from infretis.classes.engines.enginebase import EngineBase
 class LatticeEngine(EngineBase):
     """Random walk on Z driven through EngineBase.propagate."""
 
-    def __init__(self, wall=-3, timestep=1.0, subcycles=1):
+    def __init__(self, wall=-3, timestep=1.0, subcycles=1, aux=False):
         super().__init__("Lattice walk engine", timestep, subcycles)
         self.wall = int(wall)
+        self.aux = bool(aux)            # also write <name>.aux next to every trajectory file
         self.ext = "lat"
         self.name = "lattice"
         self._beta = 1.0
@@ -65,6 +66,9 @@ class LatticeEngine(EngineBase):
         traj_file = os.path.join(self.exe_dir, f"{name}.{self.ext}")
         success, status = False, "lattice"
         step_nr = 0
+        if self.aux:
+            with open(os.path.join(self.exe_dir, f"{name}.aux"), "w") as fh:
+                fh.write(f"auxiliary data of {name}\n")
         with open(traj_file, "w") as out:
             for _ in range(path.maxlen):
                 out.write(f"{x}\n")
